@@ -10,11 +10,12 @@ VARIABLES x, y
 
 F(n) == WFromNat(n)
 ValsSmall == 0..255
+ValsQuick == 0..63
 ValsLimb == {0, 1, 2, 3, 32766, 32767, 32768, 32769, 46339, 46340, 65535, 65536, 65537, 98303, 98304,
              1000000, 16777215, 16777216, 1073741823, 1073709056, 1073741824 - 32768, 536870912, 536870911}
-Init == x = 0 /\ y = 0
-Pick == x' \in Vals /\ y' \in Vals
-Next == Pick
+Init == x \in Vals /\ y \in Vals          \* every pair is an initial state; the invariants do the work
+Stay == UNCHANGED <<x, y>>
+Next == Stay
 Spec == Init /\ [][Next]_<<x, y>>
 
 Pad(a) == a \o <<0, 0>>                       \* operators must accept non-normalised arguments
@@ -26,6 +27,6 @@ LeOk == (WLe(F(x), F(y)) <=> x <= y) /\ (WLt(F(x), F(y)) <=> x < y) /\ (WLe(Pad(
 MulLimbOk == \A d \in 0..(IF WBase <= 8 THEN WBase - 1 ELSE 0) : WMulLimb(F(x), d) = F(x * d)
 DivOk == \A d \in {1, 2, 3, WBase - 1} :
             LET r == WDivSmall(F(x), d) IN r.q = F(x \div d) /\ r.r = x % d
-BitOk == \A i \in 0..(4 * WLB - 1) : WBit(F(x), i) = (x \div 2 ^ i) % 2
+BitOk == \A i \in 0..(IF WLB = 2 THEN 9 ELSE 30) : WBit(F(x), i) = (x \div 2 ^ i) % 2
 Pow2Ok == \A k \in 0..(IF WLB = 2 THEN 9 ELSE 30) : WPow2(k) = F(2 ^ k) /\ (k >= 1 => WMaxBits(k) = F(2 ^ k - 1))
 =============================================================================
